@@ -244,7 +244,7 @@ def runCase (m : Mode) (args : List String) : String :=
       match parseSections r ⟨[], [], [], [], []⟩ with
       | none => "bad-op"
       | some P =>
-        match runObserve m D T A P with
+        match runObserveG m D T A P with
         | none => "err"
         | some res => showResult res
   | _ => "bad-op"
